@@ -451,14 +451,15 @@ class Interp:
         else:
             _, el, name, lenexpr = s
             n = self.ev_as(lenexpr, 'int', frame, types)
-            self.check_length(el, n)
+            self.check_length(el, n, on_stack=not is_global)
             if n == 0:
                 self.stats['dyn_len0'] += 1
-            zero = b'' if el == 'string' else 0
-            frame[-1][name] = Arr(el, [zero if (is_global or (self.uninit_zero and el != 'string')) else UNDEF] * n)
+            # uninitialised string elements are undefined behaviour wherever the array lives; numeric and
+            # bool elements of a global array are emitted as zeros (`.zero`), those of a stack array are garbage
+            frame[-1][name] = Arr(el, [0 if (el != 'string' and (is_global or self.uninit_zero)) else UNDEF] * n)
             types[-1][name] = (arr(el, False), True)
 
-    def check_length(self, el, n):
+    def check_length(self, el, n, on_stack=True):
         size = n * self.W if el in ('int', 'string') else (n if el == 'byte' else (n + 7) >> 3)
         if n < 0:
             # a negative length is reported as stack_overflow (implementation
@@ -466,7 +467,8 @@ class Interp:
             self.fault('stack_overflow')
         if size > self.max_signed:
             self.fault('stack_overflow')
-        if self.stack_bytes is not None and size > self.stack_bytes:
+        if on_stack and self.stack_bytes is not None and size > self.stack_bytes:
+            # (global arrays do not live on the stack)
             self.fault('stack_overflow')
 
     def assign(self, target, value_fn, frame, types):
